@@ -19,7 +19,7 @@ RULE = ("seeded lists of 1-4 integer-tick sequences, well-formed after channel e
         "count/order, per-track (pitch, onset, duration, velocity) multisets, time signature in force (default 4/4) and key in "
         "force at every tick up to the end. Non-trivial: >= 2 notes and a signature or key.")
 PLAN = {"quick": {"cases": 1200, "jobs": 4, "timeout": 600},
-        "thorough": {"cases": 60000, "jobs": 16, "timeout": 3000, "budget_s": 420}}
+        "thorough": {"cases": 600000, "jobs": 16, "timeout": 3000, "budget_s": 360}}
 FLOORS = {"quick": {"c12.tracks_compared": 2000, "c12.signature_cases": 600, "c12.key_cases": 600, "c12.raw_file_checked": 1000, "c12.program_change_cases": 150, "c12.saved_twice": 200},
           "thorough": {"c12.tracks_compared": 100000}}
 SIGS = [(4, 4), (3, 4), (6, 8), (5, 4), (2, 2), (7, 8), (12, 8), (3, 16), (1, 1), (9, 8)]
